@@ -242,6 +242,27 @@ func checkSegmentMruChain(p *core.Program, r *core.Report) {
 			}
 			return false
 		})
+		// the value handed to the constructor is the received one or something not above it (a clamp towards
+		// smaller sizes); it is never raised above what was negotiated
+		var recvVal ssa.Value
+		core.DependsOn(arg, func(v ssa.Value) bool {
+			if u, ok := v.(*ssa.UnOp); ok && u.Op == token.ARROW {
+				recvVal = u
+				return true
+			}
+			if ex, ok := v.(*ssa.Extract); ok {
+				if _, ok := ex.Tuple.(*ssa.Select); ok && recvVal == nil {
+					recvVal = ex
+					return true
+				}
+			}
+			return false
+		})
+		if recvVal != nil && !neverAbove(core.Strip(arg), recvVal) {
+			r.Fail("peer-mru/"+fname(cs.Parent())+"/not-raised", "the segment size given to the TransferManager is the negotiated State.SegmentMtu or a smaller value: no path replaces it by something that can be larger", p.Pos(cs.Pos()), "the constructor's argument can be a value other than the negotiated size without a test that it is smaller (e.g. `if sMtu < own { sMtu = own }` takes the maximum): segments larger than the peer's Segment MRU are sent")
+		} else if recvVal != nil {
+			r.OK("peer-mru/"+fname(cs.Parent())+"/not-raised", "the segment size given to the TransferManager is the negotiated State.SegmentMtu or a smaller value: no path replaces it by something that can be larger", p.Pos(cs.Pos()), "")
+		}
 		if ch != nil {
 			// every send on a uint64 channel in the same top-level function sends State.SegmentMtu
 			sends := 0
@@ -714,6 +735,44 @@ func panicIsDead(f *ssa.Function) bool {
 			if pr.Panics {
 				return false
 			}
+		}
+	}
+	return true
+}
+
+// neverAbove: v is recv itself, or a phi each of whose edges is recv or a value
+// that was established smaller than recv on the edge's predecessor (x < recv).
+func neverAbove(v, recv ssa.Value) bool {
+	if v == recv {
+		return true
+	}
+	phi, ok := v.(*ssa.Phi)
+	if !ok {
+		return false
+	}
+	for i, e := range phi.Edges {
+		e = core.Strip(e)
+		if e == recv {
+			continue
+		}
+		pred := phi.Block().Preds[i]
+		okEdge := false
+		for _, cd := range core.DominatingConds(pred) {
+			b, ok := cd.V.(*ssa.BinOp)
+			if !ok {
+				continue
+			}
+			x, y := core.Strip(b.X), core.Strip(b.Y)
+			same := func(a, bb ssa.Value) bool { return a == bb || core.SameLoad(a, bb) }
+			switch {
+			case same(x, e) && y == recv && ((b.Op == token.LSS && cd.True) || (b.Op == token.LEQ && cd.True) || (b.Op == token.GEQ && !cd.True) || (b.Op == token.GTR && !cd.True)):
+				okEdge = true
+			case x == recv && same(y, e) && ((b.Op == token.GTR && cd.True) || (b.Op == token.GEQ && cd.True) || (b.Op == token.LEQ && !cd.True) || (b.Op == token.LSS && !cd.True)):
+				okEdge = true
+			}
+		}
+		if !okEdge {
+			return false
 		}
 	}
 	return true
